@@ -233,6 +233,7 @@ class ITPDirector(SectionLineParser):
 
     def _new_block(self):
         self.current_block = Block(force_field=self.force_field)
+        self.current_atom_names = []
 
     @SectionLineParser.section_parser('moleculetype')
     def _block(self, line, lineno=0):
